@@ -44,6 +44,32 @@ theorem goTo_nat {α : Type} (p : List α) (n : Nat) (h : n ≤ p.length) :
   have : (0 : Int) ≤ (n : Int) ∧ (n : Int) ≤ (p.length : Int) := by omega
   simp [Gen.goTo, this]
 
+/-! ### guards on `len(xs)`: the forms a harmless rewrite may give them, normalised
+
+(`simp only [gt_iff_lt, ge_iff_le, …]` with these turns every form into the one the model uses) -/
+
+theorem guard_zero_forms (n : Nat) :
+    (((n : Int) = 0) = (n = 0)) ∧ (((n : Int) < 1) = (n = 0)) ∧ (((n : Int) ≤ 0) = (n = 0)) ∧
+    ((0 = (n : Int)) = (n = 0)) := by
+  refine ⟨?_, ?_, ?_, ?_⟩ <;> apply propext <;> omega
+
+theorem guard_pos_forms (n : Nat) :
+    ((0 < (n : Int)) = (n ≠ 0)) ∧ (((n : Int) ≠ 0) = (n ≠ 0)) ∧ ((1 ≤ (n : Int)) = (n ≠ 0)) ∧
+    ((0 ≠ (n : Int)) = (n ≠ 0)) := by
+  refine ⟨?_, ?_, ?_, ?_⟩ <;> apply propext <;> omega
+
+/-- "exactly one element, and `c`" on a non-empty slice -/
+theorem guard_one_forms (n : Nat) (c : Prop) (hn : 1 ≤ n) :
+    ((((n : Int) = 1) ∧ c) = (n = 1 ∧ c)) ∧ ((c ∧ ((n : Int) = 1)) = (n = 1 ∧ c)) ∧
+    ((((n : Int) ≤ 1) ∧ c) = (n = 1 ∧ c)) ∧ ((c ∧ ((n : Int) ≤ 1)) = (n = 1 ∧ c)) ∧
+    ((((n : Int) < 2) ∧ c) = (n = 1 ∧ c)) ∧ ((c ∧ ((n : Int) < 2)) = (n = 1 ∧ c)) ∧
+    (((1 = (n : Int)) ∧ c) = (n = 1 ∧ c)) ∧ ((c ∧ (1 = (n : Int))) = (n = 1 ∧ c)) := by
+  refine ⟨?_, ?_, ?_, ?_, ?_, ?_, ?_, ?_⟩ <;> apply propext <;> constructor <;> intro h <;>
+    first
+      | exact ⟨by omega, h.2⟩
+      | exact ⟨by omega, h.1⟩
+      | exact ⟨h.2, by omega⟩
+
 /-! ### loop shapes -/
 
 /-- a loop of the shape `for _, x := range xs { st = f(st, x) }` is the left fold -/
